@@ -401,6 +401,47 @@ func extractMock() (string, error) {
 				}
 				return true
 			})
+			// local names do not matter: the slice parameter is `examples`, the element picked from it `example`, the
+			// parsed value `v` — whatever the emitted text calls them
+			if fd.Type.Params != nil && len(fd.Type.Params.List) > 0 && len(fd.Type.Params.List[0].Names) > 0 {
+				renameIdent(fd, fd.Type.Params.List[0].Names[0].Name, "examples")
+			}
+			ast.Inspect(fd.Body, func(n ast.Node) bool {
+				as, ok := n.(*ast.AssignStmt)
+				if !ok || as.Tok != token.DEFINE || len(as.Rhs) != 1 {
+					return true
+				}
+				if _, ok := as.Rhs[0].(*ast.IndexExpr); ok && len(as.Lhs) == 2 {
+					// the table lookup `examples, ok := fieldExamples[fieldPath]`
+					if id, ok := as.Lhs[0].(*ast.Ident); ok {
+						renameIdent(fd, id.Name, "examples")
+					}
+					if id, ok := as.Lhs[1].(*ast.Ident); ok {
+						renameIdent(fd, id.Name, "ok")
+					}
+				}
+				if ix, ok := as.Rhs[0].(*ast.IndexExpr); ok && len(as.Lhs) == 1 && srcOf(ix.X) == "examples" {
+					if id, ok := as.Lhs[0].(*ast.Ident); ok {
+						renameIdent(fd, id.Name, "example")
+					}
+				}
+				if call, ok := as.Rhs[0].(*ast.CallExpr); ok && len(as.Lhs) == 2 && strings.HasPrefix(srcOf(call.Fun), "strconv.") {
+					if id, ok := as.Lhs[0].(*ast.Ident); ok {
+						renameIdent(fd, id.Name, "v")
+					}
+					if id, ok := as.Lhs[1].(*ast.Ident); ok {
+						renameIdent(fd, id.Name, "err")
+					}
+				}
+				return true
+			})
+			parse = "identity"
+			ast.Inspect(fd, func(n ast.Node) bool {
+				if call, ok := n.(*ast.CallExpr); ok && strings.HasPrefix(srcOf(call.Fun), "strconv.") {
+					parse = srcOf(call)
+				}
+				return true
+			})
 			// shape: index with rand.Intn(len(examples)); on a parse error fall through to the default
 			body := srcOf(fd.Body)
 			shape := "?"
@@ -457,17 +498,39 @@ func extractMock() (string, error) {
 	if methodFn == nil {
 		return "", fmt.Errorf("generateMockMethod not found")
 	}
-	guard := []struct{ name, hay, needle string }{
-		{"visitingKeyIsFullName", fnSrc, "fullName := string(message.Desc.FullName())"},
-		{"visitingEnteredOnEntry", fnSrc, "visiting[fullName] = true"},
-		{"visitingLeftOnReturn", fnSrc, "defer delete(visiting, fullName)"},
-		{"visitingPassedDown", fnSrc, "g.generateMockFieldAssignments(gf, field.Message, varName+\".\"+fieldName, visiting)"},
-		{"visitingPassedToMap", fnSrc, "g.generateMockMapFieldAssignment(gf, field, varName, visiting)"},
-		{"visitingStartsEmpty", srcOf(methodFn.Body), "g.generateMockFieldAssignments(gf, method.Output, \"resp\", map[string]bool{})"},
+	// local names of the generator do not matter either: the key variable and the set are found by their roles
+	keyVar, setVar := "\\w+", "\\w+"
+	if m := regexp.MustCompile(`(\w+) := string\(\w+\.Desc\.FullName\(\)\)`).FindStringSubmatch(fnSrc); m != nil {
+		keyVar = regexp.QuoteMeta(m[1])
+	}
+	if m := regexp.MustCompile(`(\w+)\[` + keyVar + `\] = true`).FindStringSubmatch(fnSrc); m != nil {
+		setVar = regexp.QuoteMeta(m[1])
+	}
+	guard := []struct{ name, hay, pattern string }{
+		{"visitingKeyIsFullName", fnSrc, `\w+ := string\(\w+\.Desc\.FullName\(\)\)`},
+		{"visitingEnteredOnEntry", fnSrc, setVar + `\[` + keyVar + `\] = true`},
+		{"visitingLeftOnReturn", fnSrc, `defer delete\(` + setVar + `, ` + keyVar + `\)`},
+		{"visitingPassedDown", fnSrc, `g\.generateMockFieldAssignments\(gf, \w+\.Message, [^,]+, ` + setVar + `\)`},
+		{"visitingPassedToMap", fnSrc, `g\.generateMockMapFieldAssignment\(gf, \w+, \w+, ` + setVar + `\)`},
+		{"visitingStartsEmpty", srcOf(methodFn.Body), `g\.generateMockFieldAssignments\(gf, method\.Output, "\w+", map\[string\]bool\{\}\)`},
 	}
 	for _, fc := range guard {
-		fmt.Fprintf(&b, "def %s : Bool := %v\n", fc.name, strings.Contains(fc.hay, fc.needle))
+		fmt.Fprintf(&b, "def %s : Bool := %v\n", fc.name, regexp.MustCompile(fc.pattern).MatchString(fc.hay))
 	}
 	b.WriteString("end Sebuf.Gen.Mock\n")
 	return b.String(), nil
+}
+
+// renameIdent renames every identifier `from` inside fd to `to` (emitted helper functions are small and have no
+// shadowing, so the name identifies the variable).
+func renameIdent(fd *ast.FuncDecl, from, to string) {
+	if from == to || from == "_" {
+		return
+	}
+	ast.Inspect(fd, func(n ast.Node) bool {
+		if id, ok := n.(*ast.Ident); ok && id.Name == from {
+			id.Name = to
+		}
+		return true
+	})
 }
